@@ -25,7 +25,9 @@ theorem resolveHead_independent {Item : Type} (B : List Nat) (fx : Fixed Item) (
     · subst hd; split <;> simp_all
     · have hb' : n ∈ B := by simpa using hb
       simp [hb']
-  | ext n => rfl
+  | ext n =>
+    simp only [Head.escapesIn, Head.escapes, Bool.not_eq_false', beq_iff_eq] at hc
+    simp [resolveHead, hc]
   | mac n => simp [Head.escapesIn, Head.escapes] at hc
   | method n =>
     simp only [Head.escapesIn, Head.escapes, Bool.not_eq_false'] at hc
@@ -61,12 +63,24 @@ theorem escaping_path_depends {Item : Type} (B : List Nat) (fx : Fixed Item) (n 
       resolveHead B fx σ 0 (.path n) ≠ resolveHead B fx σ' 0 (.path n) := by
   simp only [Head.escapes, Bool.not_eq_true', Bool.or_eq_false_iff, beq_eq_false_iff_ne] at hn
   obtain ⟨⟨hp, hd⟩, hb⟩ := hn
-  refine ⟨⟨fun k => if k = n then some a else none, fun _ => none, fun _ => none⟩,
-          ⟨fun k => if k = n then some b else none, fun _ => none, fun _ => none⟩, ?_, ?_⟩
+  refine ⟨⟨fun k => if k = n then some a else none, fun _ => none, fun _ => none, fun _ => none⟩,
+          ⟨fun k => if k = n then some b else none, fun _ => none, fun _ => none, fun _ => none⟩, ?_, ?_⟩
   · have : idDeriveMore ≠ n := fun h => hd h.symm
     simp [this]
   · have hb' : n ∉ B := by simpa using hb
     simp [resolveHead, hb', hp, hab]
+
+/-- A crate named through a leading `::` other than the accepted `::std` is a dependency on the
+caller's crate too: two callers whose extern preludes bind the name differently (`extern crate alloc
+as core;`) resolve `::core::marker::Copy` differently. -/
+theorem escaping_extern_depends {Item : Type} (B : List Nat) (fx : Fixed Item) (n : Nat) (a b : Item) (hab : a ≠ b)
+    (hn : (Head.ext n).escapes B = true) :
+    ∃ σ σ' : Scope Item, σ.name idDeriveMore = σ'.name idDeriveMore ∧
+      resolveHead B fx σ 0 (.ext n) ≠ resolveHead B fx σ' 0 (.ext n) := by
+  simp only [Head.escapes, Bool.not_eq_true', beq_eq_false_iff_ne] at hn
+  refine ⟨⟨fun _ => none, fun _ => none, fun _ => none, fun _ => some a⟩,
+          ⟨fun _ => none, fun _ => none, fun _ => none, fun _ => some b⟩, rfl, ?_⟩
+  simp [resolveHead, hn, hab]
 
 /-- The table regenerated from the working tree: every template is closed with respect to the
 binders the templates themselves introduce. -/
@@ -112,6 +126,9 @@ example : escaping [] [.i idDeriveMore, .p 58 true, .p 58 false, .i 1005, .p 58 
 -- `< #t as derive_more :: core :: default :: Default > :: default ( )` is a qualified path: fine
 example : escaping [] [.p 60 false, .v, .i 0, .i idDeriveMore, .p 58 true, .p 58 false, .i 1005, .p 62 true, .p 58 true, .p 58 false,
     .i 1000, .g .paren []] = [] := by decide
+-- `:: core :: marker :: Copy` names the caller's `core`; `derive_more :: core :: marker :: Copy` does not
+example : escaping [] [.p 58 true, .p 58 false, .i idCore, .p 58 true, .p 58 false, .i 1000, .p 58 true, .p 58 false, .i 1001] = [.ext idCore] := by decide
+example : escaping [] [.i idDeriveMore, .p 58 true, .p 58 false, .i idCore, .p 58 true, .p 58 false, .i 1000, .p 58 true, .p 58 false, .i 1001] = [] := by decide
 example : 200 < Dm.Gen.templates.length := by decide +kernel
 
 end Dm.Props.C15
